@@ -41,7 +41,8 @@ type SubscriptionsState interface {
 type SessionMetadatasState interface {
 	Create(id string, clientID string, connectedAt int64, lwt *packet.Publish, mountpoint string) error
 	Get(id string) (api.SessionMetadatas, error)
-	ByClientID(clientID string) (api.SessionMetadatas, error)
+	// ByClientID resolves a client identifier inside one mount point: tenants do not share client ids.
+	ByClientID(clientID string, mountPoint string) (api.SessionMetadatas, error)
 	ByPeer(peer uint64) []api.SessionMetadatas
 	All() []api.SessionMetadatas
 	Delete(id string) error
